@@ -68,7 +68,10 @@ pub fn record(a: &Args) -> Report {
     // groups: a main group, a group differing only in threshold, one only in epoch, one in measurement
     // thresholds are swept, not sampled: scenario k uses t = k+1 up to `--sweep`, then large ones
     let sweep = a.u64("sweep", 0);
-    let t0: u32 = if sc < sweep {
+    let bigt = a.u64("bigt", 0) as u32;
+    let t0: u32 = if bigt > 0 && sc + 1 == scenarios {
+      bigt
+    } else if sc < sweep {
       sc as u32 + 1
     } else {
       match sc % 6 {
@@ -135,7 +138,7 @@ pub fn record(a: &Args) -> Report {
       continue;
     }
     // selections
-    let nsel = a.u64("selections", 40);
+    let nsel = if t0 > 128 { 5 } else { a.u64("selections", 40) };
     for k in 0..nsel {
       let main = by_group(1);
       let mut sel: Vec<usize> = Vec::new();
